@@ -100,6 +100,7 @@ type Exec struct {
 	autoRange  map[*ssa.BasicBlock]*rangeInv
 	ghostKeys  map[string]string
 	pendingMapHavoc []mapHavoc
+	deferred []func() // step clauses, evaluated after the whole body has been executed
 	private    map[*ssa.Alloc]bool
 	pendingAssume []*CallAssert
 	paramNames map[string]bool
@@ -1338,20 +1339,34 @@ func (ex *Exec) backEdge(from, h *ssa.BasicBlock) {
 			}
 			ex.addLoopPart(fmt.Sprintf("loop%d/inv-preserve", li.index), k, inv, cond, t, li.pos)
 		}
-		for k, st := range li.spec.Steps {
-			env.prev = ex.headerEnv[h]
-			t, err := env.Goal(st.E)
-			if err != nil {
-				if strings.Contains(err.Error(), "unknown identifier") {
-					// the clause speaks about a call that was not executed on
-					// this path through the loop body: the step relation does
-					// not hold on this path
-					t = "false"
-				} else {
-					unsup("loop %d step: %v", li.index, err)
+		if len(li.spec.Steps) > 0 {
+			// Step clauses may name calls that sit on another path through
+			// the body and are met later in the block order: they are
+			// evaluated when the whole function has been executed, in the
+			// state of this back edge.
+			senv := env.child()
+			senv.mem = ex.cur.clone()
+			senv.prev = ex.headerEnv[h]
+			ex.top.deferred = append(ex.top.deferred, func() {
+				for k, nv := range ex.top.named {
+					if _, clash := senv.vars[k]; !clash {
+						senv.vars[k] = nv
+					}
 				}
-			}
-			ex.addLoopPart(fmt.Sprintf("loop%d/step", li.index), k, st, cond, t, li.pos)
+				for k, st := range li.spec.Steps {
+					t, err := senv.Goal(st.E)
+					if err != nil {
+						if strings.Contains(err.Error(), "unknown identifier") {
+							// the clause speaks about a call or local that does
+							// not exist (any more)
+							t = "false"
+						} else {
+							unsup("loop %d step: %v", li.index, err)
+						}
+					}
+					ex.addLoopPart(fmt.Sprintf("loop%d/step", li.index), k, st, cond, t, li.pos)
+				}
+			})
 		}
 		if li.spec.Decreases != nil {
 			nv, err := env.Value(li.spec.Decreases.E)
